@@ -329,6 +329,18 @@ pub fn gen(rng: &mut Rng, tier: &str, dist: &mut Dist) -> Vec<String> {
                 dist.bump(if us == "-" { "al_dec.size_unknown" } else { "al_dec.size_declared" });
             }
         }
+        // writers with a preset dictionary (shorter than, equal to and longer than the dictionary)
+        if d <= 1 << 24 {
+            for kind in 1..=2u32 {
+                let mode = rng.below(2);
+                let mf = rng.below(2);
+                let (lc, lp) = lclp[rng.below(5) as usize];
+                let plen = *rng.pick(&[1usize, 4096, d as usize / 2, d as usize, d as usize + 4097, (d as usize).min(1 << 20)]);
+                let len = *rng.pick(&[0usize, 100, 5000]);
+                cmds.push(format!("al_enc {ck} {kind} {d} {lc} {lp} {} {mode} {mf} {} 0 {len} {plen}", rng.below(5), *rng.pick(&[8u32, 64, 273])));
+                dist.bump(&format!("al_enc.preset.kind{kind}"));
+            }
+        }
         if d <= 1 << 20 {
             let (lc, lp) = lclp[rng.below(5) as usize];
             cmds.push(format!("al_encr {ck} {d} {lc} {lp} {} {} {} {} 0", rng.below(5), rng.below(2), rng.below(2), *rng.pick(&[8u32, 64, 273])));
@@ -433,10 +445,18 @@ pub fn exec(a: &[&str]) -> (String, String) {
             let b = if restart { 1 } else { 2 };
             let kind: u32 = if restart { 2 } else { p(a[2]) };
             let o = mk_opts(p(a[b + 1]), p(a[b + 2]), p(a[b + 3]), p(a[b + 4]), p(a[b + 5]), p(a[b + 6]), p(a[b + 7]), p(a[b + 8]));
+            let mut o = o;
             let len: usize = if restart { o.dict_size as usize + 100 } else { p(a[b + 9]) };
+            // optional preset dictionary (owned by the caller's options, allocated before the measurement:
+            // the estimate is for what the writer allocates on top of its arguments)
+            let plen: usize = if !restart && a.len() > b + 10 { p(a[b + 10]) } else { 0 };
+            if plen > 0 {
+                o.preset_dict = Some(sample_data(plen));
+            }
             let data = sample_data(len);
             let est = guarded(|| Ok(o.get_memory_usage()));
             let sink: Vec<u8> = Vec::with_capacity(len + len / 2 + 4096);
+            let o2 = LZMA2Options { lzma_options: o.clone(), chunk_size: None };
             let (r, peak, _n) = measure(|| {
                 guarded(|| {
                     if restart {
@@ -451,7 +471,7 @@ pub fn exec(a: &[&str]) -> (String, String) {
                         w.write_all(&data)?;
                         w.finish()
                     } else {
-                        let mut w = LZMA2Writer::new(sink, LZMA2Options { lzma_options: o.clone(), chunk_size: None });
+                        let mut w = LZMA2Writer::new(sink, o2);
                         w.write_all(&data)?;
                         w.finish()
                     }
